@@ -182,14 +182,14 @@ func (c *opCtx) stmts(list []ast.Stmt) []string {
 				continue
 			}
 			if recv, f, _, ok := selCall(x.X); ok && strings.HasPrefix(recv, c.recv+".") && (f == "Lock" || f == "Unlock") {
-				m := strconv.Quote(strings.TrimPrefix(recv, c.recv+"."))
+				m := strconv.Quote(strings.TrimPrefix(recv, c.recv+".")) + "%string"
 				ops = append(ops, c.op(f, m))
 				continue
 			}
 			g.t.failf(s, "unsupported expression statement %s", types.ExprString(x.X))
 		case *ast.DeferStmt:
 			if recv, f, _, ok := selCall(x.Call); ok && strings.HasPrefix(recv, c.recv+".") && f == "Unlock" && c.inHelper {
-				m := strconv.Quote(strings.TrimPrefix(recv, c.recv+"."))
+				m := strconv.Quote(strings.TrimPrefix(recv, c.recv+".")) + "%string"
 				c.deferred = append([]string{c.op("Unlock", m)}, c.deferred...)
 				continue
 			}
